@@ -281,7 +281,7 @@ def gen_hooks(rng, names=('before_start', 'before_spawn', 'after_spawn',
     return hooks
 
 
-def add_on_demand(rng, cfg, ops):
+def add_on_demand(rng, cfg, ops, race=True):
     """turn one watcher into an on-demand watcher (started by a socket event
     from the periodic check, outside the command lock) and sprinkle socket
     events over the history"""
@@ -291,6 +291,7 @@ def add_on_demand(rng, cfg, ops):
                        'numprocesses': rng.choice([1, 2, 3]),
                        'warmup_delay': rng.choice([0, 0.3, 1.7])})
     wc['opts'].pop('singleton', None)
+    wi = cfg['watchers'].index(wc)
     n = rng.choice([1, 2, 3])
     for _ in range(n):
         pos = rng.randrange(len(ops) + 1)
@@ -299,4 +300,21 @@ def add_on_demand(rng, cfg, ops):
         if rng.random() < 0.5:
             ops.insert(pos + 1, {'op': 'wait', 'kind': 'time',
                                  'n': rng.choice([0.2, 1.1, 2.0])})
-    return cfg['watchers'].index(wc)
+            if race and rng.random() < 0.6:
+                # a request for the on-demand watcher that may land inside
+                # the warm-up sleeps of its start (which runs outside the
+                # command lock)
+                cmd = rng.choice(['set', 'set', 'decr', 'incr', 'stop',
+                                  'reload'])
+                props = {}
+                if cmd == 'set':
+                    props = {'options': {'numprocesses':
+                                         rng.choice([0, 0, 1, 5])}}
+                elif cmd in ('incr', 'decr'):
+                    props = {'nb': rng.choice([1, 2, 3])}
+                ops.insert(pos + 2, {
+                    'op': 'req', 'cmd': cmd, 'w': wi, 'props': props,
+                    'waiting': rng.random() < 0.7,
+                    'place': rng.choice(['now', {'dt': rng.choice(
+                        [0.05, 0.2, 0.4, 1.0])}])})
+    return wi
